@@ -177,11 +177,9 @@ __CPROVER_ensures((p != NULL && (memid.memkind != MI_MEM_ARENA || g_inuse_allset
 static bool mi_arena_id_is_suitable(mi_arena_id_t arena_id, bool arena_is_exclusive, mi_arena_id_t req_arena_id)
 __CPROVER_requires(1) __CPROVER_assigns()
 __CPROVER_ensures(__CPROVER_return_value == ((req_arena_id == 0) ? !arena_is_exclusive : (arena_id == req_arena_id)) || (req_arena_id == 0 && arena_id == 0 && __CPROVER_return_value));
-bool _mi_arena_memid_is_suitable(mi_memid_t memid, mi_arena_id_t request_arena_id)
-__CPROVER_requires(memid.memkind != MI_MEM_ARENA || memid.mem.arena.id != 0) __CPROVER_assigns()
-/* a heap bound to an arena accepts only memory of exactly that arena; an unbound heap accepts anything except exclusive arenas */
-__CPROVER_ensures(request_arena_id != 0 ==> (__CPROVER_return_value == (memid.memkind == MI_MEM_ARENA && memid.mem.arena.id == request_arena_id)))
-__CPROVER_ensures(request_arena_id == 0 ==> (__CPROVER_return_value == !(memid.memkind == MI_MEM_ARENA && memid.mem.arena.is_exclusive)));
+/* _mi_arena_memid_is_suitable: the contract text lives in heap_suit.h (one text: enforced here on arena.c, used on heap.c) */
+#define VC_ARENA_MEMID_SUIT_CONTRACT
+#include "contracts/heap_suit.h"
 #endif
 
 #ifdef VC_CBMC
